@@ -175,6 +175,31 @@ def check_traversals(maxn):
                         prob = "get_sibling(root)"
                 if prob:
                     fails.append({"shape": repr(sh), "problem": prob})
+            # the same nodes under a new root (after the queries above): answers are about the tree as it is now
+            top = type(root)()
+            top.set_left(root)
+            for x in nodes:
+                cases += 1
+                if x.get_root() is not top:
+                    fails.append({"shape": repr(sh), "problem": "get_root after the tree was put under a new root"})
+                    break
+                if x.get_root_side() != "left":
+                    fails.append({"shape": repr(sh), "problem": "get_root_side after the tree was put under a new root"})
+                    break
+            # a subtree is taken over by a new root while the old root is simply abandoned (what rewrites do)
+            root = build(sh)
+            nodes = [x for x, _ in ref_order(root, "pre")]
+            for x in nodes:
+                x.get_root()
+            sub = root.left if root.left is not None else root.right
+            if sub is not None:
+                top = type(root)()
+                top.set_right(sub)
+                for x, _ in ref_order(sub, "pre"):
+                    cases += 1
+                    if x.get_root() is not top or x.get_root_side() != "right":
+                        fails.append({"shape": repr(sh), "problem": "get_root / get_root_side of a subtree taken over by a new root"})
+                        break
     return {"cases": cases, "max_nodes": maxn, "failures": fails[:20], "n_failures": len(fails)}
 
 
